@@ -616,7 +616,8 @@ class DataLoader(object):
                         message_bytes=message_bytes if return_bytes else None,
                         message_index=message_index if return_message_index else None)
 
-            if max_messages is not None:
+            # When collecting the newest N messages we have to see the whole file.
+            if max_messages is not None and newest_messages is None:
                 # If we hit the max message count, we're done reading.
                 if message_count == abs(max_messages):
                     logger.debug('  Max messages reached. Done reading. [# messages=%d]' % message_count)
